@@ -54,9 +54,10 @@ BUILTIN_EXC_BASES = {
 
 
 class Env:
-    __slots__ = ("vars", "parent", "nonlocals", "module", "func")
+    __slots__ = ("vars", "parent", "nonlocals", "module", "func", "is_fork")
 
     def __init__(self, module, parent=None, func=None):
+        self.is_fork = False
         self.vars = {}
         self.parent = parent
         self.nonlocals = set()
@@ -80,7 +81,7 @@ class Env:
         return False
 
     def set(self, name, v):
-        if name in self.nonlocals:
+        if name in self.nonlocals and not self.is_fork:
             e = self.parent
             while e is not None:
                 if name in e.vars:
@@ -376,7 +377,7 @@ class Interp:
         if is_gen:
             env.vars["__yield__"] = []
         self.callstack.append((fv, node))
-        nguards = len(self.facts_nonzero), len(self.facts)
+        snap = (len(self.facts_nonzero), len(self.facts), len(self.guards))
         try:
             self.block(fv.node.body, env)
             ret = None
@@ -388,9 +389,33 @@ class Interp:
             # (the callee returned on its generic path), so they are kept.
         if is_gen:
             return list(env.vars["__yield__"])
+        if isinstance(ret, bool) and len(self.guards) > snap[2]:
+            lifted = self._lift_bool(fv, ret, snap)
+            if lifted is not None:
+                return lifted
         if self.cut_calls and self.callstack:
             ret = self.cut(ret)
         return ret
+
+    def _lift_bool(self, fv, ret, snap):
+        """A predicate whose early exits and generic path all return booleans is returned as ONE symbolic
+        boolean (so that callers branch on it) instead of 'generic path + recorded guard'."""
+        entries = self.guards[snap[2]:]
+        if not entries or any(fn != fv.qualname or o[0] != "return" or not isinstance(o[1], bool) for g, o, l, fn in entries):
+            return None
+        val = ret
+        for g, o, l, fn in reversed(entries):
+            o = o[1]
+            if isinstance(val, bool):
+                if o == val:
+                    continue
+                val = g if o else g.negate()
+            else:
+                val = Guard("or", g, val) if o else Guard("and", g.negate(), val)
+        del self.guards[snap[2]:]
+        del self.facts_nonzero[snap[0]:]
+        del self.facts[snap[1]:]
+        return val
 
     def cut(self, v):
         if isinstance(v, E):
@@ -782,6 +807,10 @@ class Interp:
         memo = {}
         f = Env(env.module, parent=env.parent, func=env.func)
         f.nonlocals = set(env.nonlocals)
+        f.is_fork = True
+        for k in env.nonlocals:  # copy-on-write view of enclosing-scope variables
+            if k not in env.vars and env.has(k):
+                f.vars[k] = _fork_value(env.lookup(k), memo)
         for k, v in env.vars.items():
             f.vars[k] = _fork_value(v, memo)
         return f
@@ -798,7 +827,11 @@ class Interp:
                 env.vars[n] = self.opaque(f"variable {n} defined on one branch of a symbolic if", st) \
                     if not isinstance(v, (FuncVal,)) else v
                 continue
-            env.vars[n] = self.select_value(c, e1.vars[n], e2.vars[n], env.vars.get(n), st)
+            val = self.select_value(c, e1.vars[n], e2.vars[n], env.vars.get(n), st)
+            if n in env.nonlocals and not env.is_fork:
+                env.set(n, val)
+            else:
+                env.vars[n] = val
 
     def select_value(self, c, a, b, orig, node):
         if a is b:
@@ -1408,6 +1441,8 @@ class Interp:
         if isinstance(base, Opaque):
             return base
         if isinstance(base, ModuleRef):
+            if base.module.name == "pydrex.logger":
+                return Native("log." + attr, lambda I_, *a, **k: None)  # logging is effect-free for every property
             try:
                 return self.module_global(base.module, attr)
             except KeyError:
